@@ -179,7 +179,9 @@ var elems = []string{"a.b", "con", "CON", "cOn.txt", "nul.a.b", "com1", "com0", 
 var gopkgSuffix = []string{".v0", ".v1", ".v2", ".v01", ".v", ".v1-unstable", ".v0-unstable", ".v1.2", "-unstable", "/v2", ".v10", ".v1-unstable/x", ".v1/x", "v1", ".V1", ".v1-Unstable"}
 
 var versions = []string{"v0.0.0", "v0.1.0", "v1.0.0", "v1.2.3", "v1", "v1.2", "v2.0.0", "v2", "v2.0.0+incompatible", "v1.0.0+incompatible", "v0.0.0+incompatible", "v3.1.4+incompatible", "v2.0.0+meta", "v2.0.0-pre", "v2.0.0-pre+incompatible",
-	"v0.0.0-20190101000000-abcdefabcdef", "v0.0.0-", "v0.0.0-0", "v1.0.1-0.20190101000000-abcdefabcdef", "v2.0.1-0.20190101000000-abcdefabcdef", "v3.0.0", "v9.0.0", "v10.0.0", "v10.1.1", "v11.0.0", "v02.0.0", "v1.0", "", "1.0.0", "v", "vx", "latest", "v1.0.0.0", "v2.0.0.1", "v18446744073709551616.0.0", "V1.0.0", "v1.0.0 ", "none"}
+	"v0.0.0-20190101000000-abcdefabcdef", "v0.0.0-", "v0.0.0-0", "v1.0.1-0.20190101000000-abcdefabcdef", "v2.0.1-0.20190101000000-abcdefabcdef", "v3.0.0", "v9.0.0", "v10.0.0", "v10.1.1", "v11.0.0", "v02.0.0", "v1.0", "", "1.0.0", "v", "vx", "latest", "v1.0.0.0", "v2.0.0.1", "v18446744073709551616.0.0", "V1.0.0", "v1.0.0 ", "none",
+	// near misses of the one build tag that has a meaning
+	"v2.0.0+incompatible.1", "v2.0.0+incompatiblex", "v2.0.0+incompatible-fork", "v2.0.0+incompatibl", "v2.0.0+Incompatible", "v2.0.0+x.incompatible", "v2.0.0+incompatible+incompatible", "v2.0.0-incompatible", "v3.0.0+incompatible.x"}
 
 func Run(r *fw.Run) {
 	L := r.Pick(7, 8)
